@@ -650,6 +650,23 @@ Proof.
 Qed.
 Print Assumptions c13_unloaded_offsets_determined.
 
+(* what reaches the loop is all of the stream or nothing: one entry with size 0 or a range past u64::MAX and NO frame of the
+   report lists an unloaded module (the reader's `return Err(ModuleReadFailure)`; compared on the U cases) *)
+Theorem c13_unloaded_stream_all_or_nothing :
+  forall (raw : list umod), umods_wf raw ->
+  umods_wf (unloaded_list_read raw) /\
+  (forall u, In u (unloaded_list_read raw) -> u_range u = Some (u_base u, u_base u + u_size u - 1)) /\
+  (existsb u_bad raw = true -> forall p perm addr, (forall h, Permutation (perm h) h) -> frame_offsets p perm addr (unloaded_list_read raw) = Ret []) /\
+  (existsb u_bad raw = false -> unloaded_list_read raw = raw).
+Proof.
+  intros raw Hw. split; [apply unloaded_list_read_wf; exact Hw|].
+  split; [intros u Hu; apply (unloaded_list_read_ranges raw u Hw Hu)|].
+  unfold unloaded_list_read. split; intros E; rewrite E; [|reflexivity].
+  intros p perm addr Hp. unfold frame_offsets. cbn [u_hits filter].
+  assert (X : perm (@nil umod) = []) by (apply Permutation_nil, Permutation_sym, Hp). rewrite X. reflexivity.
+Qed.
+Print Assumptions c13_unloaded_stream_all_or_nothing.
+
 (* the contrast (mutation "StackFrame.unloaded_modules: HashMap", or a HashSet of offsets): the same printers over hash
    containers depend on the iteration order *)
 Theorem c13_unloaded_hash_containers_refuted :
